@@ -49,6 +49,10 @@ where
         // This is a message from a group member
         let bytes = application_message.into_bytes();
         let mut rumor: UnsignedEvent = UnsignedEvent::from_json(bytes)?;
+        // Never trust an id carried in the rumor JSON: the stored id must be the NIP-01 hash of
+        // the stored author, timestamp, kind, tags and content (a pre-set id could otherwise
+        // overwrite another member's stored message).
+        rumor.id = None;
 
         self.verify_rumor_author(&rumor.pubkey, sender_credential)?;
 
